@@ -53,6 +53,19 @@ CHECKS = {
                  "monotone clock (outside right after start; inside iff less than 5 s since the last tracking reply; only a tracking reply records the instant). Socket I/O is environment.", NOTE_D, TECH_M),
     'C14': ('M', "All inputs of the stated domain: every panic/overflow site reachable from now() (asserts of the overflow-checked MIR, nix's range panics) is proved unreachable, and the error "
                  "kinds are proved to be returned exactly under their documented conditions.", NOTE_NOW, TECH_M),
+    'C16': ('M', "Every header (all 2^128 values of the 16 header bytes, as the four typed fields they are in bijection with) x every read length -1..16 x every success/failure of open, read and mmap: "
+                 "ShmReader::new succeeds exactly for (magic, version != 0, generation != 0, declared size >= 72, calls ok) and otherwise returns the documented error kind with the failing call's errno "
+                 "and origin; no panic, no read of uninitialised header bytes, descriptor closed and mapping released on every path; both clients' error conversions; ShmWriter::wipe's file image "
+                 "(72 bytes, documented header, zeros) and the validity of the header after wipe + version store + first publication.",
+            "Trusted: MIR pretty-printer, translator, z3. Environment: libc open/read/mmap/close/munmap/errno (POSIX contract, any errno), File/WriteBytesExt/Seek operations of wipe() as append events. "
+            "User Drop impls (FdGuard, MmapGuard) are inlined at drop terminators. Uninitialised-read and outcome counterexamples are replayed natively (real ShmReader::new on the constructed file, "
+            "valgrind memcheck for uninitialised reads). Kinds of path (directory, missing file) appear only as the failing system call they cause; file-system semantics are outside.", TECH_M),
+    'C17': ('M+CBMC', "Constants of the real compilers on every run: -Zprint-type-sizes layout of ShmHeader/ClockErrorBound and the offsets extracted from the writer's/reader's pointer arithmetic equal the table "
+                      "transcribed from docs/PROTOCOL.md; CBMC proves 17 sizeof/offsetof/enumerator assertions on the real clockbound.h against the Rust FFI types; engine M proves that clockbound_now and "
+                      "ClockBoundClient::now return the same interval/status/error kind/errno for every (snapshot result, now() result), and that both From<ShmError> conversions agree. "
+                      "A native cross-check runs both libraries on 12 segment files under one virtual clock.",
+            "Trusted: rustc's layout dump, CBMC's C front end, the MIR translator, z3. The layout part is a comparison of constants (the solver's verdict there is trivial; the value is that the numbers "
+            "come from the real compilers). A C *program* built against libclockbound is not symbolically executed.", TECH_M + "; CBMC on the C header"),
     'C18': ('M+W', "Termination by induction, no unrolling bound: a loop-carried counter of snapshot()'s retry loop is proved to decrease on every retry path and to force an exit at 0; the "
                    "initial budget is a constant read from the MIR, giving an explicit bound on shared accesses per call; all reader events are loads/fences; stalled-writer RC11 scenarios "
                    "(update cut at any event) admit no stuck state.", NOTE_W, TECH_W),
